@@ -36,10 +36,11 @@ def c08_ops(tier):
             if tier == 'thorough' or (op != 6 and (enc == 0 or op == 5)):                      # the others: 15..60 s each
                 out.append(ops(2, 0, [0, 2], ENC=enc, OP=op))                                  # 12 bits
             out.append(ops(2, 0, [0, 1, 2], ENC=enc, OP=op, SAME_NAME=None, AFREE=SAME8))      # 8 bits, one symbol name with three ranks
+            if tier == 'thorough' or op == 5:                                                  # quick: RemoveUselessStates (third red-team round: a productive state reachable only through a rule with an unproductive sibling needs 3 states and rank 2)
+                out.append(ops(3, 0, [0, 2], ENC=enc, OP=op, AFREE=BIN3_11, _time=2400))       # 14 bits
             if tier == 'thorough':
                 out.append(ops(3, 0, [0, 1], ENC=enc, OP=op, _time=2400))                      # 15 bits
                 out.append(ops(2, 0, [0, 1, 2], ENC=enc, OP=op, SAME_NAME=None, AFREE=SAME12, _time=2400))   # 12 bits
-                out.append(ops(3, 0, [0, 2], ENC=enc, OP=op, AFREE=BIN3_11, _time=2400))       # 14 bits
         # state numbers / symbol codes handed out by the loader in order of appearance, or fixed in another order
         out.append(ops(2, 0, [0, 1], ENC=enc, OP=0, SEED=0))
         out.append(ops(2, 0, [0, 1], ENC=enc, OP=0, PRIME=1))
@@ -89,7 +90,7 @@ CHECKS = {
  'C08': {
   'level': 'model_checking',
   'explanation': 'Load (LoadFromString through a parser object that hands over the AutDescription), Union, UnionDisjointStates, Intersection, RemoveUnreachableStates, RemoveUselessStates and GetTopDownAut of BDDBottomUpTreeAut / BDDTopDownTreeAut executed symbolically (MTBDD package, on-the-fly alphabet and state dictionaries included) on every automaton / pair / triple drawn from the rule universe of the configuration (presence bit per rule, finality bit per state). The result and every operand (and earlier result) after each call are dumped with DumpToString (serializer object that receives the AutDescription), decoded by state and symbol name into rule masks and compared by *language* with the expected automaton (the operand itself, mask-level disjoint union, mask-level product) using an independent macro-state inclusion oracle in both directions; after RemoveUselessStates every state the dump mentions must occur in an accepting run of the dumped automaton. harness bddops: one operation on fresh operands or on operands that are copies sharing one transition table; harness bddseq: two-call sequences starting with UnionDisjointStates (whose result used to alias its left operand\'s table), every automaton built so far is re-checked after each call.',
-  'bounds': {'quick': 'operands over <= 2 states: universes 2 x {a/0,f/1}, 2 x {a/0,b/0,f/1}, 2 x {a/0,g/2}, 2 x {a/0,a/1,a/2} (one name, three ranks; 6-rule sub-universe), pairs 2+1, 1+2 over {a/0,f/1}, 1+1 over {a/0,b/0,f/1,g/2}, table-sharing pairs over {a/0,f/1} and a 6-rule sub-universe of {a/0,g/2}, intersection of a 1-state operand over {a/0,f/1,g/2} with a 3-state operand restricted to a 7-rule chain-shaped sub-universe (either order); triples 1+1+1 over {a/0,f/1} and {a/0,b/0,f/1}; state numbers and symbol codes either fixed in advance or handed out by the loader; all rule subsets and final sets (8..12 free bits per query); a converted (GetTopDownAut) automaton meeting a directly loaded top-down automaton in Intersection and Union (1+1 over {a/0,f/1} and {a/0,f/1,g/2})',
+  'bounds': {'quick': 'operands over <= 2 states: universes 2 x {a/0,f/1}, 2 x {a/0,b/0,f/1}, 2 x {a/0,g/2}, 2 x {a/0,a/1,a/2} (one name, three ranks; 6-rule sub-universe), pairs 2+1, 1+2 over {a/0,f/1}, 1+1 over {a/0,b/0,f/1,g/2}, table-sharing pairs over {a/0,f/1} and a 6-rule sub-universe of {a/0,g/2}, intersection of a 1-state operand over {a/0,f/1,g/2} with a 3-state operand restricted to a 7-rule chain-shaped sub-universe (either order); triples 1+1+1 over {a/0,f/1} and {a/0,b/0,f/1}; state numbers and symbol codes either fixed in advance or handed out by the loader; all rule subsets and final sets (8..12 free bits per query); a converted (GetTopDownAut) automaton meeting a directly loaded top-down automaton in Intersection and Union (1+1 over {a/0,f/1} and {a/0,f/1,g/2}); RemoveUselessStates of both encodings on an 11-rule sub-universe of 3 x {a/0,g/2} (14 bits; third red-team round)',
              'thorough': 'as quick plus 3 x {a/0,f/1}, an 11-rule sub-universe of 3 x {a/0,g/2}, 2 x {a/0,a/1,a/2} with 10 free rules, pairs 2+2 over {a/0,f/1}, 2+1 over {a/0,g/2}, table-sharing pairs over all of 2 x {a/0,g/2}, triples 2+1+1 (up to 16 free bits per query)'},
   'outside': 'more than 3 states per operand, rank > 2, more than 4 symbols; sequences longer than two calls; the Timbuk text parser/serializer (the harness hands AutDescription objects over directly); loading into an automaton whose table is already shared (AddTransition asserts uniqueness); the "symbolic" load/dump parameter; state dictionaries other than the seeded / on-the-fly ones',
   'harnesses': [
